@@ -259,7 +259,11 @@ def gen_enum_case(rng, k, derive_trait, with_flags=False):
                 for j, f in enumerate(fs):
                     f["name"] = f["name"] or ["a", "b", "c"][j]
         own = None
-        need_own = len(fs) > 1 or (len(fs) == 0 and derive_trait != "Display") or \
+        # a variant needs a format of its own when nothing else gives it a text: several fields, a field whose type lacks
+        # the derived trait, or (non-Display derives) no field at all - unless the enum-level format is a plain default,
+        # which covers multi-field and field-less variants of EVERY Display-like derive (repo fix 3d5b8b4)
+        covered = mode == "default"
+        need_own = (len(fs) > 1 and not covered) or (len(fs) == 0 and derive_trait != "Display" and not covered) or \
             (len(fs) == 1 and derive_trait not in TYPES[fs[0]["t"]][2])
         if need_own or derive_trait == "Debug" or rng.random() < 0.4:
             if fs:
